@@ -17,6 +17,41 @@ CHECKS = {
             "Bounded-exhaustive, not a proof for n >= 5 or for float inputs outside the enumerated families.",
             "Trusts numpy float64 arithmetic on exactly representable values; snapshot/restore uses the public copy(); float families use the G2 tolerance.",
             "DESIGN.md §6 C01"),
+    "C02": ("E1 lattice explorer",
+            "explicit-state exploration of every knowledge set; oracle = explicit set-partition enumeration + exhaustive enumeration of integer completions",
+            "At every knowledge set of every enumerated hidden game the real table is compared with == against the partition oracle (all set partitions into "
+            "known coalitions; min over known strict supersets); both extremes are shown attained by explicit superadditive completions, and for all K with "
+            "<= 3 (thorough 4) unknown coalitions ALL integer completions of the enclosing box are enumerated and their extremes compared. Bounded-exhaustive.",
+            "Oracle O1 is validated against the definition by O2 on the same run; float families within the G2 tolerance in exact rationals.",
+            "DESIGN.md §6 C02"),
+    "C03": ("E1 lattice explorer (twin) + cache-state BFS",
+            "lock-step explicit-state exploration of two real objects (one per computer) + BFS over the states of the process-wide memoised structure",
+            "Both computers are driven through the same exploration (fresh object at every K, Euler walk over every edge, dirty runs) and the complete tables "
+            "must be bit-identical after every compute, n=3,4 complete lattices, n=5..8 layered knowledge sets, all 2187 3-player games of any class; "
+            "the memoisation is explored as a state machine (set of player counts used so far): every (state, size) transition, every first-use order of 4 sizes, "
+            "memoised arrays compared with freshly built ones.",
+            "Cache states are restored by cache_clear + replay of a first-use path; the private name of the memoised function is used when present, otherwise the check degrades to an interleaving comparison and says so.",
+            "DESIGN.md §6 C03"),
+    "C04": ("E1 lattice explorer",
+            "exhaustive enumeration of (SAM game, knowledge set, repetition count) with the five clauses evaluated on the real tables",
+            "All superadditive monotone-non-increasing integer games of a complete lattice (n=3: 156 x 3 variants, n=4: 282 / 3272) x every knowledge set x "
+            "repetition counts 0..10,100,1000 (n=3), 0,1,2,3,10 (n=4): soundness against the hidden game, never looser than the SA bounds, monotone in r, "
+            "lower bounds monotone along all nested pairs, upper bounds capped as stated.",
+            "r=1000 only at n=3; float families (xos/xs/oxs/budget/coverage) within the G2 tolerance.",
+            "DESIGN.md §6 C04"),
+    "C07": ("E1 lattice explorer",
+            "exhaustive enumeration of every reveal edge of the knowledge lattice, on canonical tables and by real reveal/un-reveal on one long-lived object",
+            "Every edge (K, K+{S}) of the complete lattice (12 / 5120 per game) for every game of the class matching the computer, all six computers, "
+            "all four gap functions evaluated by the real code and compared with first-principles values: interval inclusion, gap non-increase, gap >= 0, gap(full)=0.",
+            "sam_apx_100 at n=4 only on two-valued games, sam_apx_1000 only at n=3; quick tier evaluates the real gap functions on a third of the n=4 games.",
+            "DESIGN.md §6 C07"),
+    "C08": ("E1 lattice explorer + env walk",
+            "explicit-state BFS over operation histories (reveal, un-reveal, bulk reset, set, unset, compute) with digest de-duplication; differential oracle = fresh object at the same knowledge",
+            "All six computers, games of any class: every clean state reached by the Euler walk (every edge both ways on one long-lived object) and by every "
+            "dirty run of <= d operations must carry exactly the table a fresh object gets for that knowledge; compute is idempotent; step;unstep restores every "
+            "observable of the real environment from every env state (n=3 all, n=4 selected games).",
+            "d = 1 (2 on an eighth of the games) quick, 2 (3 on 1/16) thorough; quick explores a third of the 3-player games per seed.",
+            "DESIGN.md §6 C08"),
 }
 
 NOT_YET = {}
